@@ -42,6 +42,8 @@ def run_case(n_sims: int, transport: list, faulty: int, index: int, kind: str, a
     handler = logging.StreamHandler(destroyed)
     logging.getLogger("asyncio").addHandler(handler)
     old_stderr = sys.stderr
+    gc.collect()
+    sockets_before = _open_sockets()
     loop = asyncio.new_event_loop()
     asyncio.set_event_loop(loop)
     t0 = time.time()
@@ -145,12 +147,27 @@ def run_case(n_sims: int, transport: list, faulty: int, index: int, kind: str, a
             finals[p[1]] = finals.get(p[1], 0) + 1
     os.unlink(logfile)
     res["finalize_counts"] = {f"S{i}": finals.get(f"S{i}", 0) for i in range(n_sims)}
+    # sockets of THIS process (mosaik's side of the connections, its server socket, the loop's self-pipe) that are still open although
+    # run() and shutdown() are over - counted before the harness closes a loop that mosaik left open
+    gc.collect()
+    res["sockets_left_open"] = max(0, _open_sockets() - sockets_before) if loop.is_closed() else None
     if not loop.is_closed():
         try:
             loop.close()
         except Exception:
             pass
     return res
+
+
+def _open_sockets() -> int:
+    n = 0
+    for fd in os.listdir("/proc/self/fd"):
+        try:
+            if os.readlink(f"/proc/self/fd/{fd}").startswith("socket:"):
+                n += 1
+        except OSError:
+            pass
+    return n
 
 
 def judge(res: dict) -> list:
@@ -178,6 +195,8 @@ def judge(res: dict) -> list:
         vio.append({"law": "the event loop is closed after run()", **res})
     if res.get("second_shutdown") != "ok":
         vio.append({"law": "a second shutdown() is a no-op", **res})
+    if res.get("sockets_left_open"):
+        vio.append({"law": "no socket is left open after run() / shutdown()", **res})
     if res.get("pending_tasks"):
         vio.append({"law": "no pending event-loop work is left behind", **res})
     return vio
